@@ -232,6 +232,14 @@ func (setup *SetupServerController) handleKeyExchange(in util.Container) (util.C
 			out.SetByte(TagErrCode, ErrCodeAuthenticationFailed.Byte()) // return error 2
 		} else {
 			log.Debug.Println("ed25519 signature is valid")
+			if username == setup.device.Name() {
+				// The pairing would replace the entity of the accessory, i.e. its own key pair
+				setup.reset()
+				log.Info.Println("pairing uses the name of the accessory")
+				out.SetByte(TagErrCode, ErrCodeUnknown.Byte()) // return error 1
+				return out, nil
+			}
+
 			// Store entity ltpk and name
 			entity := db.NewEntity(username, clientltpk, nil)
 			if err := setup.database.SaveEntity(entity); err != nil {
